@@ -124,6 +124,16 @@ func (g *gm) mgmtActions(withGC, withRestart bool) map[string]func(*rapid.T) {
 			g.applyGC(Op{K: "gc", N: rapid.IntRange(0, 1).Draw(t, "valuelog")})
 		}
 	}
+	if withGC {
+		acts["gcdel"] = func(t *rapid.T) {
+			g.t = t
+			if len(g.live()) == 0 || rapid.IntRange(0, 1).Draw(t, "rare") != 0 {
+				t.Skip("no dataset / rare")
+			}
+			g.applyGCDel(Op{K: "gcdel", Name: rapid.SampledFrom(g.live()).Draw(t, "name"),
+				ID: rapid.SampledFrom([]string{"gc.afterEntities", "gc.afterOutgoing", "gc.afterIncoming"}).Draw(t, "point")})
+		}
+	}
 	if withRestart {
 		acts["restart"] = func(t *rapid.T) { g.t = t; g.applyRestart(Op{K: "restart"}) }
 	}
